@@ -340,6 +340,8 @@ class RF:
             raise ZeroDivisionError("symbolic 1/0")
         if self.is_const():
             return RF({ONE: 1 / self.cval()})
+        if has_defs(self.p):
+            return RF(expand_defs(self.p)).inv()
         g = mono_gcd(self.p)
         ginv = tuple((a, -e) for a, e in g)
         q = p_mul_raw(self.p, {ginv: F1}) if g else self.p
@@ -584,16 +586,27 @@ def root(x, k):
         r = _exact_root(c, k)
         if r is not None:
             return RF.const(r)
+    if has_defs(x.p):
+        x = RF(expand_defs(x.p))          # definition atoms are never nested inside other atoms
+        if x.is_const():
+            return root(x, k) if x.p else RF({})
+    if len(x.p) >= 2:
+        c0 = _const_candidate(x)
+        if c0 is not None:
+            return root(RF.const(c0), k)
     g = mono_gcd(x.p)
     pull = []
     for a, e in g:
         q = int(e / k) if e > 0 else -int(-e / k)
-        # only atoms known to be non-negative may be pulled out of an even root
-        if q and (A.kind[a] == 'rad' or k % 2 == 1):
+        # only factors known to be non-negative may be pulled out of an even root: radicals, and even powers
+        # (a**(q) with q even) of anything
+        if q and (A.kind[a] == 'rad' or k % 2 == 1 or q % 2 == 0):
             pull.append((a, q))
     inner = x.p
     if pull:
         inner = p_reduce(p_mul_raw(inner, {tuple((a, -q * k) for a, q in pull): F1}))
+    if not inner:
+        return RF({})
     c, q = p_normalize(inner)
     if c < 0 and k % 2 == 0:
         # radicand = c*q must be >= 0 with c < 0: write it as |c| * (-q)
@@ -618,6 +631,39 @@ def root(x, k):
             cc = A.new("crad%d(%s)" % (k, c), 'rad', (k, p_const(c)), key=('rad', k, p_key(p_const(c))))
             res = res * RF.atom(cc)
     return RF(p_reduce(res.p))
+
+
+def _const_candidate(x):
+    """if the term x (with inverse powers / inv atoms) is *exactly* a rational constant on the admissible set, return
+    it: a numerical guess at one point, confirmed by the exact zero test; else None"""
+    has_neg = False
+    for m in x.p:
+        for a, e in m:
+            if e < 0 or A.kind[a] == 'inv':
+                has_neg = True
+                break
+        if has_neg:
+            break
+    if not has_neg:
+        return None
+    import random as _r
+    rng = _r.Random(12345)
+    env = {a: 0.37 + 1.1 * rng.random() for a in term_deps(x)}
+    try:
+        v = evalf(x, env)
+    except (Undefined, ZeroDivisionError, OverflowError, ValueError, KeyError):
+        return None
+    if isinstance(v, complex) or v != v:
+        return None
+    c = Fraction(v).limit_denominator(1000)
+    if abs(float(c) - v) > 1e-9 * max(1.0, abs(v)):
+        return None
+    try:
+        if iszero(x - RF.const(c)):
+            return c
+    except TooBig:
+        return None
+    return None
 
 
 def _iroot(n, k):
@@ -650,6 +696,8 @@ def trig(u):
     """(sin u, cos u)"""
     if isinstance(u, Angle):
         return u.sin(), u.cos()
+    if has_defs(u.p):
+        u = RF(expand_defs(u.p))
     if not u.p:
         return RF({}), RF.const(1)
     # sin/cos of a single atan atom with coefficient +-1 are algebraic
@@ -688,6 +736,8 @@ class Angle:
 
 
 def transc(kind, u):
+    if has_defs(u.p):
+        u = RF(expand_defs(u.p))
     if kind == 'exp' and not u.p:
         return RF.const(1)
     if kind == 'log' and u.is_const() and u.cval() == 1:
